@@ -201,3 +201,13 @@ Definition run_json_print (ws : list Z) : list Z :=
   | Some ((b, m, a, q), []) => print_params b (Z.to_N m) a (Z.to_N q)
   | _ => [-1]
   end.
+
+(* ------------------------------ Sig ------------------------------ *)
+From PMH Require Import Model.Sig.
+Definition run_sig (ws : list Z) : list Z :=
+  match ws with
+  | code :: w :: vals =>
+    let sh := if code =? 0 then ShScalar (Z.to_nat w) false else if code =? 1 then ShVec (Z.to_nat w) else ShUtf8 in
+    sig_bytes sh vals
+  | _ => [-1]
+  end.
